@@ -594,13 +594,6 @@ pub fn valid_model(rng: &mut Rng, sz: Sizes) -> Model {
         }
         m.clusters.push(c);
     }
-    // the documented bare `[hsts]` syntax: at most one listener per file (the table name is
-    // global in TOML)
-    if g.rng.chance(1, 12) {
-        if let Some(l) = m.listeners.iter_mut().find(|l| l.proto == LProto::Https && l.hsts.is_some()) {
-            l.hsts_syntax = Syntax::DocumentedBareHsts;
-        }
-    }
     m
 }
 
